@@ -1,6 +1,7 @@
 package c09
 
 import (
+	"errors"
 	"fmt"
 
 	"github.com/nspcc-dev/neo-go/pkg/core/storage"
@@ -16,12 +17,20 @@ type gateStore struct {
 	armed   bool
 	entered chan struct{}
 	release chan struct{}
+	// fail (set before the release) makes the held PutChangeSet return errInjected instead of writing;
+	// failOnce makes the next (not held) PutChangeSet fail at once.
+	fail     bool
+	failOnce bool
 }
+
+// errInjected is the backend failure the gate injects into PutChangeSet.
+var errInjected = errors.New("c09: injected backend failure")
 
 func newGate(inner storage.Store) *gateStore { return &gateStore{inner: inner} }
 
 func (g *gateStore) arm() {
 	g.armed = true
+	g.fail = false
 	g.entered = make(chan struct{}, 1)
 	g.release = make(chan struct{})
 }
@@ -36,9 +45,16 @@ func (g *gateStore) SeekGC(rng storage.SeekRange, f func(k, v []byte) (bool, boo
 func (g *gateStore) Close() error { return g.inner.Close() }
 func (g *gateStore) PutChangeSet(puts, stor map[string][]byte) error {
 	if g.armed {
-		// armed/entered/release were written before the persisting goroutine was started (happens-before by `go`)
+		// armed/entered/release were written before the persisting goroutine was started (happens-before by `go`);
+		// fail is written before close(release)
 		g.entered <- struct{}{}
 		<-g.release
+		if g.fail {
+			return errInjected
+		}
+	} else if g.failOnce {
+		g.failOnce = false
+		return errInjected
 	}
 	return g.inner.PutChangeSet(puts, stor)
 }
@@ -101,10 +117,24 @@ func (r *runner) window(op *Op) error {
 			return nil
 		}
 		released = true
+		g.fail = op.Fail
 		close(g.release)
 		err := <-done
 		g.armed = false
+		g.fail = false
 		r.inWindow = false
+		if op.Fail {
+			// The backend refused the batch: Persist must report it, the backend is untouched and the layer holds
+			// the restored batch overlaid with everything written meanwhile (newer writes and deletions win) -
+			// which is what the merged model map of the bottom layer already is.
+			r.winWrites = nil
+			r.winSnap = nil
+			r.sawFailWin = true
+			if !errors.Is(err, errInjected) {
+				return fmt.Errorf("Persist returned %v although PutChangeSet of the backend failed with %q", err, errInjected)
+			}
+			return nil
+		}
 		// model: the swapped-out content reaches the backend, the bottom layer keeps what was written meanwhile
 		for k, v := range snap {
 			r.mapply(-1, k, v)
@@ -127,7 +157,7 @@ func (r *runner) window(op *Op) error {
 	}
 	for i := range op.Inner {
 		in := &op.Inner[i]
-		if in.Kind == "window" || in.Kind == "gc" {
+		if in.Kind == "window" || in.Kind == "gc" || in.Kind == "failflush" {
 			continue
 		}
 		if err := r.exec(in); err != nil {
@@ -152,7 +182,21 @@ func (r *runner) window(op *Op) error {
 	if err := release(); err != nil {
 		return err
 	}
-	return r.auditFrom(-1, "after the Persist window")
+	when := "after the Persist window"
+	if op.Fail {
+		when = "after the FAILED Persist (backend refused the batch)"
+	}
+	if err := r.auditFrom(-1, when); err != nil {
+		return err
+	}
+	if op.Fail && op.Retry {
+		// the next successful Persist must write the right data
+		if err := r.flushLayer(0, op.Mode&1); err != nil {
+			return fmt.Errorf("Persist after a failed one: %w", err)
+		}
+		return r.auditFrom(-1, "after the successful Persist that followed a failed one")
+	}
+	return nil
 }
 
 func checkGated(c Case, o *vt.Obs) error {
